@@ -162,6 +162,7 @@ func C11(tier rt.Tier) int {
 		runs = []cfg{
 			{name: "1key-very-deep", keys: []int{0}, vals: []string{"a", "b"}, levels: []int{0}, gc: true, depth: 13, c11: true, maxNoDup: 7},
 			{name: "2keys-very-deep", keys: []int{0, 4}, vals: []string{"a", "b"}, levels: []int{1}, gc: true, depth: 10, c11: true, maxNoDup: 6},
+			{name: "3way-non-root-branch", keys: []int{4, 6, 7, 5}, vals: []string{"a"}, levels: []int{0}, gc: true, depth: 10, c11: true, maxNoDup: 6},
 			// collection passes whose storage write is rejected, retried later
 			{name: "1key-failing-gc-writes", keys: []int{0}, vals: []string{"a", "b"}, levels: []int{0}, gc: true, gcFault: true, depth: 10, c11: true, maxNoDup: 6},
 			{name: "2keys-failing-gc-writes", keys: []int{0, 4}, vals: []string{"a"}, levels: []int{0}, gc: true, gcFault: true, depth: 11, c11: true, maxNoDup: 6},
